@@ -11,10 +11,14 @@ import (
 	"go/parser"
 	"go/token"
 	"path/filepath"
+	"regexp"
 	"regexp/syntax"
+	"sort"
 	"strconv"
 	"strings"
 )
+
+var clsRe = regexp.MustCompile(`CLS:(cls_[0-9]+)`)
 
 func evalStringExpr(e ast.Expr) (string, error) {
 	switch x := e.(type) {
@@ -79,28 +83,105 @@ func findPattern(file, name string) (string, error) {
 }
 
 type reEmitter struct {
-	classes []string          // Coq text of distinct classes
-	index   map[string]int    // class text -> index
+	classes  []string       // Coq text of distinct classes
+	index    map[string]int // class key -> index
+	runeSets [][]rune       // the rune ranges of every distinct class (for the minterm computation)
+	keys     []string
 }
 
-func (em *reEmitter) class(r []rune) string {
+func classKey(r []rune) string {
 	var sb strings.Builder
-	sb.WriteString("[")
-	for i := 0; i+1 < len(r); i += 2 {
-		if i > 0 {
-			sb.WriteString("; ")
-		}
-		fmt.Fprintf(&sb, "(%d, %d)", r[i], r[i+1])
+	for _, x := range r {
+		fmt.Fprintf(&sb, "%d,", x)
 	}
-	sb.WriteString("]%N")
-	txt := sb.String()
-	if idx, ok := em.index[txt]; ok {
+	return sb.String()
+}
+
+// class registers a class and returns its name; the Coq text is produced later (finish), when the
+// minterms of all classes are known.
+func (em *reEmitter) class(r []rune) string {
+	k := classKey(r)
+	if idx, ok := em.index[k]; ok {
 		return fmt.Sprintf("cls_%d", idx)
 	}
-	idx := len(em.classes)
-	em.classes = append(em.classes, txt)
-	em.index[txt] = idx
+	idx := len(em.runeSets)
+	em.index[k] = idx
+	em.runeSets = append(em.runeSets, append([]rune{}, r...))
+	em.keys = append(em.keys, k)
 	return fmt.Sprintf("cls_%d", idx)
+}
+
+func inRuneSet(r []rune, c rune) bool {
+	for i := 0; i+1 < len(r); i += 2 {
+		if r[i] <= c && c <= r[i+1] {
+			return true
+		}
+	}
+	return false
+}
+
+// minterms partitions the non-ASCII code points by membership in every registered class.
+// Returns the table (lo, hi, id) and, per class, the ids it contains.  Id 0 is the minterm of
+// code points contained in no class.
+func (em *reEmitter) minterms() (table [][3]int64, perClass [][]int) {
+	bset := map[rune]bool{128: true, 0x110000: true}
+	for _, r := range em.runeSets {
+		for i := 0; i+1 < len(r); i += 2 {
+			if r[i] >= 128 {
+				bset[r[i]] = true
+			}
+			if r[i+1]+1 >= 128 {
+				bset[r[i+1]+1] = true
+			}
+		}
+	}
+	var bounds []rune
+	for b := range bset {
+		if b >= 128 && b <= 0x110000 {
+			bounds = append(bounds, b)
+		}
+	}
+	sort.Slice(bounds, func(i, j int) bool { return bounds[i] < bounds[j] })
+	sigID := map[string]int{}
+	zero := strings.Repeat("0", len(em.runeSets))
+	sigID[zero] = 0
+	perClass = make([][]int, len(em.runeSets))
+	seenInClass := make([]map[int]bool, len(em.runeSets))
+	for i := range seenInClass {
+		seenInClass[i] = map[int]bool{}
+	}
+	for i := 0; i+1 < len(bounds); i++ {
+		lo, hi := bounds[i], bounds[i+1]-1
+		var sb strings.Builder
+		for _, r := range em.runeSets {
+			if inRuneSet(r, lo) {
+				sb.WriteByte('1')
+			} else {
+				sb.WriteByte('0')
+			}
+		}
+		sig := sb.String()
+		id, ok := sigID[sig]
+		if !ok {
+			id = len(sigID)
+			sigID[sig] = id
+		}
+		if n := len(table); n > 0 && table[n-1][2] == int64(id) && table[n-1][1]+1 == int64(lo) {
+			table[n-1][1] = int64(hi)
+		} else {
+			table = append(table, [3]int64{int64(lo), int64(hi), int64(id)})
+		}
+		for ci := range em.runeSets {
+			if sig[ci] == '1' && !seenInClass[ci][id] {
+				seenInClass[ci][id] = true
+				perClass[ci] = append(perClass[ci], id)
+			}
+		}
+	}
+	for ci := range perClass {
+		sort.Ints(perClass[ci])
+	}
+	return table, perClass
 }
 
 // stripAnchors removes a leading \A and a trailing \z (looking through capture groups and
@@ -155,15 +236,15 @@ func (em *reEmitter) emit(re *syntax.Regexp) (string, error) {
 		}
 		parts := make([]string, len(re.Rune))
 		for i, r := range re.Rune {
-			parts[i] = "Cls " + em.class([]rune{r, r})
+			parts[i] = "CLS:" + em.class([]rune{r, r})
 		}
 		return foldr("Cat", parts, "Eps"), nil
 	case syntax.OpCharClass:
-		return "Cls " + em.class(re.Rune), nil
+		return "CLS:" + em.class(re.Rune), nil
 	case syntax.OpAnyChar:
-		return "Cls " + em.class([]rune{0, 0x10FFFF}), nil
+		return "CLS:" + em.class([]rune{0, 0x10FFFF}), nil
 	case syntax.OpAnyCharNotNL:
-		return "Cls " + em.class([]rune{0, 9, 11, 0x10FFFF}), nil
+		return "CLS:" + em.class([]rune{0, 9, 11, 0x10FFFF}), nil
 	case syntax.OpCapture:
 		return em.emit(re.Sub[0])
 	case syntax.OpConcat, syntax.OpAlternate:
@@ -220,6 +301,7 @@ func genRegex(repo, outDir string) error {
 		{"type_re", filepath.Join(repo, "builder", "types.go"), "validTypeRegex"},
 	}
 	em := &reEmitter{index: map[string]int{}}
+	_ = em.classes
 	var defs []string
 	var srcs []string
 	for _, p := range pats {
@@ -236,21 +318,47 @@ func genRegex(repo, outDir string) error {
 		if err != nil {
 			return fmt.Errorf("%s: %v", p.varName, err)
 		}
-		any := "Star (Cls " + em.class([]rune{0, 0x10FFFF}) + ")"
+		any := "Star (CLS:" + em.class([]rune{0, 0x10FFFF}) + ")"
 		if !b {
 			body = "Cat (" + any + ") (" + body + ")"
 		}
 		if !e {
 			body = "Cat (" + body + ") (" + any + ")"
 		}
+		body = clsRe.ReplaceAllString(body, "Cls ${1}_a ${1}_m")
 		defs = append(defs, fmt.Sprintf("Definition %s : re :=\n  %s.\n", p.coqName, body))
 		srcs = append(srcs, fmt.Sprintf("Definition %s_src_hex : string := \"%x\"%%string.\n", p.coqName, src))
 	}
 	var sb strings.Builder
 	sb.WriteString("(* GENERATED by qrb2coq from builder/ident.go and builder/types.go - do not edit *)\n")
 	sb.WriteString("From Coq Require Import List String NArith.\nFrom QRB Require Import Meta.Regex.\nImport ListNotations.\n\n")
-	for i, c := range em.classes {
-		fmt.Fprintf(&sb, "Definition cls_%d : list (N * N) := %s.\n", i, c)
+	table, perClass := em.minterms()
+	sb.WriteString("Definition minterm_table : list (N * N * nat) :=\n  [")
+	for i, t := range table {
+		if i > 0 {
+			sb.WriteString("; ")
+		}
+		fmt.Fprintf(&sb, "(%d%%N, %d%%N, %d)", t[0], t[1], t[2])
+	}
+	sb.WriteString("].\n\n")
+	for i, r := range em.runeSets {
+		var ascii []string
+		for k := 0; k+1 < len(r); k += 2 {
+			lo, hi := r[k], r[k+1]
+			if lo > 127 {
+				continue
+			}
+			if hi > 127 {
+				hi = 127
+			}
+			ascii = append(ascii, fmt.Sprintf("(%d, %d)", lo, hi))
+		}
+		var ids []string
+		for _, id := range perClass[i] {
+			ids = append(ids, fmt.Sprint(id))
+		}
+		fmt.Fprintf(&sb, "Definition cls_%d_a : list (N * N) := [%s]%%N.\nDefinition cls_%d_m : list nat := [%s].\n",
+			i, strings.Join(ascii, "; "), i, strings.Join(ids, "; "))
 	}
 	sb.WriteString("\n")
 	for _, d := range defs {
